@@ -6,6 +6,9 @@ from . import detsched as ds
 from .interp import path_id
 
 _installed = False
+# scenario option "batcher": {"bytes": .., "ops": .., "time": ..} -> CheckpointBatcherConfig of the ExecutionState the wrapper
+# creates (the public entry point always uses the defaults: 750 KB / 250 updates / 1 s; small limits reach the overflow path)
+BATCHER_CFG = None
 
 
 def _log(ev, **kw):
@@ -116,6 +119,13 @@ def install_hooks():
     orig_init = ExecutionState.__init__
 
     def init(self, *a, **kw):
+        if BATCHER_CFG and kw.get("batcher_config") is None and len(a) < 5:
+            from aws_durable_execution_sdk_python.state import CheckpointBatcherConfig
+            d = CheckpointBatcherConfig()
+            kw["batcher_config"] = CheckpointBatcherConfig(
+                max_batch_size_bytes=BATCHER_CFG.get("bytes", d.max_batch_size_bytes),
+                max_batch_time_seconds=BATCHER_CFG.get("time", d.max_batch_time_seconds),
+                max_batch_operations=BATCHER_CFG.get("ops", d.max_batch_operations))
         orig_init(self, *a, **kw)
 
         def qhook(op, q, item=None):
@@ -241,8 +251,8 @@ def convert(execution):
                 if x["rejected"]:
                     k = "step?"
                 if x["typ"] not in ("STEP", "?"):
-                    # wait / callback START inside a branch: part of the susp / tsusp atom, not a "step"
-                    continue
+                    # wait / callback START inside a branch: the checkpoint with which a tsusp / susp atom begins
+                    k = "wstart" if x["action"] == "START" else x["action"]
                 out.append(ev("Ckpt", i=step_parent[oid], k=k, rej=bool(x["rejected"])))
         elif n == "EvSet":
             if not seen_set:
